@@ -461,3 +461,24 @@ Proof.
   destruct (ev_pre 10 buf o v) as [[[b o'] w]| | |]; unfold ev_env; go; try reflexivity.
   rewrite bytes_set_eq. rewrite n2b_uint8. destruct (in_range b o'); go; reflexivity.
 Qed.
+
+(* ================================================================ timepb/cmp.go: AddStd *)
+Lemma addstd_prog_correct : addstd_prog_stmt.
+Proof.
+  intros t d lf dp [Hs Hn] Hd Hrange. destruct t as [s n]. cbn [secs nanos] in *.
+  enter. go. unfold TsAddStd.
+  brk; [reflexivity|].
+  set (i := inst {| secs := s; nanos := n |} + d).
+  apply in_int64_iff in Hd. apply in_int32_iff in Hn.
+  assert (Hq : - 9223372036854775808 <= i / second < 9223372036854775808).
+  { unfold i, inst, second. cbn [secs nanos]. lia. }
+  assert (Hm : 0 <= i mod second < 1000000000) by (unfold second; lia).
+  assert (Hi : ity_in TInt64 (i / second) = true) by (apply in_int64_iff; exact Hq).
+  rewrite Hi. go.
+  assert (T2 : ts_typed {| secs := i / second; nanos := i mod second |}).
+  { split; cbn [secs nanos]; [exact Hi|apply in_int32_iff; lia]. }
+  assert (T1 : ts_typed {| secs := s; nanos := n |}) by (split; cbn [secs nanos]; [exact Hs|apply in_int32_iff; exact Hn]).
+  pose proof (overflowpanic_prog_correct _ _ (d <? 0) lf dp T1 T2) as HO. unfold run_fun in HO. cbn [Nat.add] in HO.
+  unfold ts_fields at 1. rewrite ts_ptr_fold.
+  rewrite HO. fold i. brk; reflexivity.
+Qed.
